@@ -141,3 +141,17 @@ def partition(step):
     if out != href:
         bad.append(f"re-assembly from getters gives {out!r}, href is {href!r}")
     return bad
+
+
+IDNA_CAP = 16384
+
+
+def idna_cap_class(case, extra=b""):
+    """Known finding class: a host that needs domain-to-ASCII processing (non-ASCII byte, '%' or an "xn-" label) and is
+    longer than ada::idna's max_domain_input_bytes - as input, or as the A-label form the library itself produced."""
+    inp, base, ops, _ = case
+    blobs = [inp or b"", base or b"", extra or b""] + [v for _, v in (ops or [])]
+    for b in blobs:
+        if len(b) > IDNA_CAP - 400 and (b"%" in b or b"xn-" in b.lower() or any(c >= 0x80 for c in b)):
+            return True
+    return False
